@@ -586,6 +586,25 @@ pub fn cmd_tamper(args: &[String]) {
                         Err(_) => {}   // refusing the buffer shape by panic is the caller-side contract, as for the box opens
                     }
                 }
+                // classic pull into a buffer SHORTER than the message (a receiver with a fixed buffer): refused - for genuine and
+                // for rejected frames alike - with the tag output, the buffer and the state as they were
+                if x.len() > ABYTES {
+                    rep.evaluations += 1;
+                    let mut d3 = fresh_pull(k, h);
+                    let before3 = d3.clone();
+                    let small: Vec<u8> = (0..(x.len() - ABYTES - 1)).map(|i| 0x5Au8 ^ (i as u8).wrapping_mul(11)).collect();
+                    let mut out3 = small.clone();
+                    let mut t3 = 0xEEu8;
+                    match catch(|| cs::crypto_secretstream_xchacha20poly1305_pull(&mut d3, &mut out3, &mut t3, x, a.as_deref())) {
+                        Ok(Err(_)) => {
+                            if t3 != 0xEE { rep.fail("C17 classic stream pull: tag output updated by a rejected pull", json!({"mlen": mlen, "how": how, "kind": kind, "buffer": "shorter than the message", "tag_now": t3})); }
+                            if out3 != small && !out3.iter().all(|b| *b == 0) { rep.fail("C17 classic stream pull: message buffer modified by a rejected pull (buffer shorter than the message)", json!({"mlen": mlen, "how": how, "kind": kind, "seed": seed})); }
+                            if d3 != before3 { rep.fail("C02 classic stream pull: rejected pull changed the state", json!({"mlen": mlen, "how": how, "buffer": "shorter than the message"})); }
+                        }
+                        Ok(Ok(_)) => rep.fail("C02 classic stream pull: a message longer than the buffer is accepted", json!({"mlen": mlen, "how": how, "kind": kind})),
+                        Err(p) => rep.fail("C02 classic stream pull: panicked", json!({"mlen": mlen, "how": how, "panic": p, "buffer": "shorter than the message"})),
+                    }
+                }
                 // object API
                 rep.evaluations += 1;
                 let mut o: DryocStream<Pull> = DryocStream::verif_from_state(fresh_pull(k, h));
